@@ -160,6 +160,24 @@ class RelationshipResolver:
         return None
 
 
+def null_safe_in(column: Any, values: Any) -> Any:
+    """
+    Translate ``column in values`` with Python's meaning of ``None``.
+
+    SQL's ``IN`` never matches NULL (``NULL IN (NULL, 2)`` is unknown), whereas ``None in [None, 2]``
+    is true, so a ``None`` among the values becomes an explicit ``IS NULL`` alternative.
+
+    :param column: The SQLAlchemy column expression
+    :param values: The collection of Python values
+    :return: SQLAlchemy expression
+    """
+    values = list(values)
+    if not any(value is None for value in values):
+        return column.in_(values)
+    not_none_values = [value for value in values if value is not None]
+    return or_(column.in_(not_none_values), column.is_(None))
+
+
 @dataclass
 class OperatorMapper:
     """Maps EQL operators to SQLAlchemy expressions."""
@@ -175,7 +193,13 @@ class OperatorMapper:
         """
         operator_name = operation.__name__
 
+        left_is_sql = hasattr(left, "is_distinct_from")
+        right_is_sql = hasattr(right, "is_distinct_from")
+
         if operation is operator.eq or operator_name == "eq":
+            if left_is_sql and right_is_sql:
+                # two columns: None == None holds in Python, NULL = NULL is unknown in SQL
+                return left.is_not_distinct_from(right)
             return left == right
         if operation is operator.gt or operator_name == "gt":
             return left > right
@@ -186,6 +210,11 @@ class OperatorMapper:
         if operation is operator.le or operator_name == "le":
             return left <= right
         if operation is operator.ne or operator_name == "ne":
+            # None != 1 holds in Python, NULL != 1 is unknown in SQL
+            if left_is_sql:
+                return left.is_distinct_from(right)
+            if right_is_sql:
+                return right.is_distinct_from(left)
             return left != right
 
         raise UnsupportedOperatorError(f"Unknown operator: {operation}")
@@ -203,9 +232,9 @@ class OperatorMapper:
         is_negated = operator_name == "not_contains"
 
         if isinstance(left, (list, tuple, set)):
-            expression = right.in_(left)
+            expression = null_safe_in(right, left)
         elif isinstance(right, (list, tuple, set)):
-            expression = left.in_(right)
+            expression = null_safe_in(left, right)
         elif isinstance(left, str) and not isinstance(right, str):
             expression = func.instr(literal(left), right) > 0
         elif not isinstance(left, str) and isinstance(right, str):
@@ -657,7 +686,7 @@ class EQLTranslator:
 
             if len(values) != 1 or (values and not isinstance(values[0], str)):
                 column = self.translate_attribute(query.right)
-                expression = column.in_(values)
+                expression = null_safe_in(column, values)
                 return sa_not(expression) if is_negated else expression
 
         mapper = OperatorMapper()
